@@ -67,7 +67,7 @@ Proof.
     { destruct flt as [[k e]|]; [|exact E].
       eapply unfaulted_same; [|exact E]. destruct Hc as [Hc|Hc]; [left; exact Hc|right].
       apply tryfree_seq; auto. apply tryfree_ex. }
-    rewrite E0. destruct cf; simpl; auto.
+    rewrite E0. destruct cf as [| | |e1]; [| | |destruct e1]; simpl; auto.
   - left. destruct e; reflexivity.
 Qed.
 (* the caller sees an error (or the process died before commit returned) => nothing was written *)
@@ -77,7 +77,7 @@ Proof.
   intros p d r flt cf Hcf Hno. unfold with_conn, db_of, oc_of in *.
   destruct (run flt (seqP (ex pragma_fk) p) (mkSt d r 0)) as [res s].
   destruct res as [a|e].
-  - destruct cf; simpl in *; auto; try congruence. exfalso. eapply Hno. reflexivity.
+  - destruct cf as [| | |e1]; [| | |destruct e1]; simpl in *; auto; try congruence. exfalso. eapply Hno. reflexivity.
   - destruct e; reflexivity.
 Qed.
 (* a fault at or before the last statement always surfaces: statement faults never produce a silent partial commit,
@@ -120,8 +120,8 @@ Proof.
     apply tryfree_seq; [apply tryfree_ex|]. apply tryfree_seq.
     + apply tryfree_for. intro; apply tryfree_ex.
     + apply tryfree_for. intros [[ty dty] data]. apply tryfree_ex.
-  - apply tryfree_bind; [|intro; exact I]. unfold iso_get. apply tryfree_bind; [apply tryfree_ex|]. intro rs.
-    generalize (chunks (S (length rs)) 100 rs). intro cs. induction cs as [|ch cs IH]; [exact I|].
+  - apply tryfree_bind; [|intro; exact I]. unfold iso_get, iso_get_n. apply tryfree_bind; [apply tryfree_ex|]. intro rs.
+    generalize (chunks (S (length rs)) iso_batch rs). intro cs. induction cs as [|ch cs IH]; [exact I|]. cbn [iso_get_chunks].
     apply tryfree_bind; [apply tryfree_ex|]. intro ps. apply tryfree_bind; [apply tryfree_ex|]. intro ds.
     apply tryfree_bind; [exact IH|]. intro; exact I.
   - apply tryfree_seq; [|exact I]. unfold iso_delete. apply tryfree_bind; [apply tryfree_ex|]. intros [|]; [|exact I].
